@@ -381,7 +381,9 @@ Definition admitted (m : mgr) (src : addr) (p : list N) (now : N) : mgr :=
                  (m_ninc m + 1)).
 
 Inductive shape (hash : bool -> addr -> N) (m : mgr) (now : N) (inp : input) : mgr -> list lout -> Prop :=
-| sh_same o : Forall (fun x : lout => fst x = None) o -> shape hash m now inp m o
+| sh_same o : Forall (fun x : lout => fst x = None) o ->
+    Forall (fun x : lout => match snd x with Metric _ | Drop _ => True | _ => False end) o ->
+    shape hash m now inp m o
 | sh_cfg m' :
     m_flows m' = m_flows m -> m_table m' = m_table m -> m_armed m' = m_armed m ->
     m_ninc m' = m_ninc m -> (m_max_flows m' <= m_hw m')%N -> (m_hw m <= m_hw m')%N ->
